@@ -124,6 +124,11 @@ func extractTimestamp(data any, tsProp string, timeUnit time.Duration) (time.Tim
 		warnUnplaceableTimestamp(tsProp)
 		return time.Time{}, false
 	}
+	// TIMEUNIT='mi'/'hh'/'dd' (whole multiples of a second): cast.ConvertIntToTime only knows
+	// s/ms/us/ns and would read the number as seconds.
+	if timeUnit > time.Second && timeUnit%time.Second == 0 {
+		return time.Unix(timestampInt*int64(timeUnit/time.Second), 0), true
+	}
 	return cast.ConvertIntToTime(timestampInt, timeUnit), true
 }
 
